@@ -166,6 +166,17 @@ class Choice:
     def pysym_eq(self, ctx, other):
         return self is other
 
+    def __repr__(self):
+        def safe(v):
+            if isinstance(v, (list, tuple)):
+                return "[%s]" % ", ".join(safe(e) for e in v[:8]) + ("..." if len(v) > 8 else "")
+            try:
+                return repr(v)
+            except Exception:
+                return getattr(v, "show", lambda: "<symbolic>")()[:40]
+        return "choice(population=%s, weights=%s%s)" % (safe(self.population), safe(self.weights),
+                                                        "" if self.cum_weights is None else ", cum_weights=" + safe(self.cum_weights))
+
 
 def choice_stub(ctx, interp, args, kwargs):
     names = ["input_id", "population", "weights"]
